@@ -307,7 +307,7 @@ func c03Record(w *mon.W, id string, x poly.Sequence, origin string, tmp string, 
 }
 
 func runC03(w *mon.W) {
-	n := w.Pick(12000, 120000)
+	n := w.Pick(12000, 300000)
 	nBig := w.Pick(10, 200)
 	tmp := filepath.Join(w.Dir, fmt.Sprintf("c03-%d", w.Shard))
 	os.MkdirAll(tmp, 0755)
